@@ -123,7 +123,7 @@ def tsl(dims, offset=0):
     return "#tsl.tsl<" + t + (f", offset: {offset}" if offset else "") + ">"
 
 
-def hand_layouts(R, C, tile=8):
+def hand_layouts(R, C, tile=8, pitchpad=0):
     """tiled layouts for an R x C operand with 8x8 tiles: tile-row-major / tile-col-major, inner row-/col-major, padded tile stride, gaps"""
     ro, co = R // tile, C // tile
     out = []
@@ -132,10 +132,11 @@ def hand_layouts(R, C, tile=8):
         for inner in ("rm", "cm"):
             for pad in (0, 8):
                 ts = t + pad
+                # pitchpad: the pitch of the outermost tile loop is padded by less than one tile
                 if outer == "rm":
-                    so_r, so_c = ts * co, ts
+                    so_r, so_c = ts * co + pitchpad, ts
                 else:
-                    so_r, so_c = ts, ts * ro
+                    so_r, so_c = ts, ts * ro + pitchpad
                 si_r, si_c = (tile, 1) if inner == "rm" else (1, tile)
                 out.append([[(ro, so_r), (tile, si_r)], [(co, so_c), (tile, si_c)]])
     return out
@@ -176,6 +177,7 @@ def space(tier):
         for which in (0, 1, 2):
             for i in range(8):
                 cases.append(("mm", M, N, K, "qmac", "hand", which * 8 + i))
+                cases.append(("mm", M, N, K, "qmac", "hand2", which * 8 + i))
     # one buffer as two operands with different access patterns: D = X * X^T
     for M, K in itertools.product(S, repeat=2):
         for kern in ("qmac", "mac", "rescale", "gemm"):
@@ -219,7 +221,7 @@ def evaluate(case) -> CaseResult:
     if kind == "mm":
         _, M, N, K, kern, lay, hidx = case
         layouts = None
-        if lay == "hand":
+        if lay in ("hand", "hand2"):
             which, i = divmod(hidx, 8)
             chosen = _chosen_layouts(M, N, K)
             if chosen is None:
@@ -227,7 +229,7 @@ def evaluate(case) -> CaseResult:
                 return r
             shapes = [(M, K), (K, N), (M, N)]
             layouts = list(chosen) + [None]
-            layouts[which] = tsl(hand_layouts(*shapes[which])[i])
+            layouts[which] = tsl(hand_layouts(*shapes[which], pitchpad=8 if lay == "hand2" else 0)[i])
         text = mm_text(M, N, K, kern, layouts)
         acc = "snax_gemmx"
     elif kind == "gram":
